@@ -293,7 +293,7 @@ func (lw *liveWorld) runConn(n int, ccfg *tls.Config) *connObs {
 	go func() { // client-facing server node, as in the package documentation
 		defer close(frontDone)
 		lw.guard(o, "front", func() {
-			ctx, cancel := context.WithTimeout(context.Background(), 30*time.Second)
+			ctx, cancel := context.WithTimeout(context.Background(), time.Hour) // (byte-wise delivery of a long hello over a slow link takes minutes of virtual time)
 			defer cancel()
 			conn, err := ech.NewConn(ctx, fc, keyOptions(lw.keys)...)
 			if err != nil {
